@@ -571,22 +571,42 @@ def gene_in_region(gene_parts, region_parts):
     return all(any(p0 <= s and e <= p1 for p0, p1 in region_parts) for s, e in gene_parts)
 
 
-def late_genes(chk, rng, record, n, circular, cases, impl_outs, context):
-    """ adds 1-3 genes to a record that already has its regions (Record.add_cds_feature -> _link_cds_to_parent) and
-        notes, for each, which regions took the gene and where cds.region points; the verdict (the gene points to the
-        one region containing it, as if it had been there before the regions) waits for the model's answer """
+def region_ok(parts, n):
+    """ the hypothesis reg_ok of C06_late_gene_link_complete on one region location: one non-empty part inside the
+        record, or the two parts [s, n) + [0, e) with 0 < e <= s < n """
+    if len(parts) == 1:
+        return 0 <= parts[0][0] < parts[0][1] <= n
+    return (len(parts) == 2 and parts[1][0] == 0 and parts[0][1] == n
+            and 0 < parts[1][1] <= parts[0][0] < parts[0][1])
+
+
+def late_genes(chk, rng, record, n, circular, cases, impl_outs, context, fixed=None):
+    """ adds 1-3 genes (or the genes `fixed` of the regression corpus) to a record that already has its regions
+        (Record.add_cds_feature -> _link_cds_to_parent) and notes, for each, which regions took the gene and where
+        cds.region points; the verdict (the gene points to the one region containing it, as if it had been there before
+        the regions) waits for the model's answer """
     from antismash.common.secmet.test.helpers import DummyCDS
     from antismash.common.secmet.locations import CompoundLocation, FeatureLocation
     regions = list(record.get_regions())
     if not regions:
         return
+    bad_layout = [loc_parts(reg.location) for reg in regions if not region_ok(loc_parts(reg.location), n)
+                  or (len(reg.location.parts) == 2 and any(p.strand != 1 for p in reg.location.parts))]
+    if bad_layout:
+        chk.violation("counterexample", "a region location built by create_regions is outside the hypothesis reg_ok of "
+                      "C06_late_gene_link_complete (one non-empty part, or [s, N) + [0, e) with 0 < e <= s < N, forward)",
+                      {"theorem_or_correspondence": "C06_late_gene_link_complete (hypothesis on the produced layout, tested on every run)",
+                       "input": {"length": n, "circular": circular, "history": context}, "regions_outside": bad_layout})
+    chk.count("late_gene_layout_checked")
     taken = {str(c.location) for c in record.get_cds_features()}
-    for k in range(rng.choice([1, 2, 3])):
+    for k in range(len(fixed) if fixed is not None else rng.choice([1, 2, 3])):
         region = rng.choice(regions)
         parts = loc_parts(region.location)
         r = rng.random()
         gene = None
-        if r < 0.7:
+        if fixed is not None:
+            gene = [tuple(g) for g in fixed[k]]
+        elif r < 0.7:
             p0, p1 = rng.choice(parts)
             length = rng.choice([3, 6, 9])
             if p1 - p0 >= length:
@@ -599,7 +619,7 @@ def late_genes(chk, rng, record, n, circular, cases, impl_outs, context):
         if gene is None:
             s = rng.randrange(0, n - 3)
             gene = [(s, s + 3)]
-        strand = rng.choice([1, -1])
+        strand = 1 if fixed is not None else rng.choice([1, -1])
         if len(gene) == 1:
             location = FeatureLocation(gene[0][0], gene[0][1], strand)
         else:
@@ -647,9 +667,10 @@ def late_genes(chk, rng, record, n, circular, cases, impl_outs, context):
 
 
 def late_gene_class(item):
-    """ the recorded class late_gene_origin_region_unlinked, decided on the input: the record has two or more regions, the
-        first one spans the origin and contains the gene, the gene lies wholly in its part BEFORE the origin; recorded
-        shape of the failure: the gene is linked to nothing """
+    """ the shape of the REPAIRED finding C06-K4 late_gene_origin_region_unlinked (nothing is suppressed any more; the
+        label only goes into the report when the failure comes back): the record has two or more regions, the first one
+        spans the origin and contains the gene, the gene lies wholly in its part BEFORE the origin, and the gene is linked
+        to nothing """
     regions, gene = item["regions"], item["gene"]
     if len(regions) < 2 or len(regions[0]) != 2 or item["expected"] != [0] or len(gene) != 1:
         return None
@@ -661,22 +682,19 @@ def late_gene_class(item):
 
 
 def decide_late_genes(chk, pending, model_outs):
-    known = known_classes()
     for item in pending:
         if item["verdict"] is None:
             continue
         cls = late_gene_class(item)
-        if cls is not None and cls in known and model_outs[item["index"]] == item["impl"]:
-            chk.count("known_class_" + cls)
-            continue
         chk.violation("counterexample", "add_cds_feature after create_regions: " + item["verdict"],
-                      {"theorem_or_correspondence": "C06_late_gene_link (independent oracle on the implementation's outcome; "
-                                                    "the clause is C08's: each gene points to the one region containing it, "
-                                                    "whether added before or after the areas)",
+                      {"theorem_or_correspondence": "C06_late_gene_link_complete / C06_late_gene_link_sound (independent oracle on "
+                                                    "the implementation's outcome; the clause is C08's: each gene points to the "
+                                                    "one region containing it, whether added before or after the areas)",
                        "input": {"length": item["n"], "circular": item["circular"], "regions_in_record_order": item["regions"],
                                  "late_gene": item["gene"], "history": item["context"]},
                        "regions_that_took_the_gene": item["hits"], "cds_region": item["linked"], "expected": item["expected"],
-                       "model": model_outs[item["index"]], "class_of_failure": cls})
+                       "model": model_outs[item["index"]],
+                       "class_of_failure": None if cls is None else cls + " (C06-K4, repaired: the defect is back)"})
 
 
 def known_classes():
@@ -711,6 +729,16 @@ RING_CORPUS = [
     # hulls of the two chunks overlap and connect_locations answers [0:L] - the recorded class origin_spanning_long_arc
     # (the component 39..28 covers 29 of the 40 bases); kept here so that its attribution to that class stays under watch
     (40, [(39, 13), (10, 28), (21, 23), (5, 8), (28, 30)]),
+]
+# ... of the repaired finding C06-K4 late_gene_origin_region_unlinked (a gene added after the regions, inside the part
+# before the origin of the origin-crossing first region, was linked to nothing when the record had other regions): the
+# recorded witness, the smallest layout (two regions), the gene at both ends of the pre-origin part, genes after the
+# origin / across it / in the other regions / outside every region.  (length, sub-regions, late genes)
+LATE_GENE_CORPUS = [
+    (1000, [(900, 50), (100, 200), (400, 500), (600, 700)],
+     [[(950, 980)], [(10, 40)], [(120, 150)], [(300, 320)], [(900, 903)], [(997, 1000)], [(994, 1000), (0, 6)], [(600, 700)]]),
+    (100, [(59, 24), (29, 42)], [[(97, 100)], [(59, 62)], [(0, 3)], [(29, 32)], [(39, 42)], [(45, 48)]]),
+    (1000, [(100, 200), (900, 50), (300, 350), (400, 500), (600, 700), (750, 800)], [[(940, 949)], [(950, 980)], [(750, 756)]]),
 ]
 # ... and of the repaired finding C06-K3 add_region_scan_stops_early (an origin-spanning new region sharing bases with a
 # region other than the first was accepted), with the neighbouring call that must be accepted
@@ -754,12 +782,15 @@ def run_rings(chk, rng, total, cases, impl_outs):
         chk.note_case(flat, observed is not None and any(len(c) + len(s) >= 2 for _, c, s, _ in observed),
                       {"step": "ring " + label, "length": n, "areas": areas, "implementation": out} if rng.random() < 0.002 else None)
 
-    corpus = [(n, list(areas), kinds) for n, areas in RING_CORPUS for kinds in (["sub"] * len(areas), ["cand"] * len(areas))]
+    corpus = [(n, list(areas), kinds, None) for n, areas in RING_CORPUS for kinds in (["sub"] * len(areas), ["cand"] * len(areas))]
+    corpus += [(n, list(areas), kinds, late) for n, areas, late in LATE_GENE_CORPUS
+               for kinds in (["sub"] * len(areas), ["cand"] * len(areas))]
     for _ in range(total):
+        fixed_late = None
         if corpus:
-            n, areas, kinds = corpus.pop(0)
+            n, areas, kinds, fixed_late = corpus.pop(0)
             circular, genes = True, []
-            chk.count("ring_corpus")
+            chk.count("ring_corpus" if fixed_late is None else "late_gene_corpus")
         else:
             n, areas = gen_ring_areas(rng)
             circular = True
@@ -779,6 +810,8 @@ def run_rings(chk, rng, total, cases, impl_outs):
         bad = oracle(record, objs)
         step = rng.choice(["recreate", "clear_subregions", "clear_candidate_clusters", "add_then_recreate", "none",
                            "clear_protoclusters", "strip", "add_again", "add_again"])
+        if fixed_late is not None:
+            step = "none"           # the late-gene corpus: the genes go into the record as create_regions left it
         keep = list(range(len(areas)))
         if not bad and step != "none":
             error = None
@@ -872,10 +905,10 @@ def run_rings(chk, rng, total, cases, impl_outs):
                                      "genes": genes, "history": ["add areas", "create_regions", step],
                                      "areas_added_again_in_this_order": [areas[i] for i in keep] if step == "add_again" else None},
                            "failure": bad})
-        elif rng.random() < 0.5:
+        elif fixed_late is not None or rng.random() < 0.5:
             late_genes(chk, rng, record, n, circular, cases, impl_outs,
                        {"areas_in_supply_order": areas, "kinds": kinds, "genes_before": genes,
-                        "history": ["add areas", "create_regions", step, "add_cds_feature"]})
+                        "history": ["add areas", "create_regions", step, "add_cds_feature"]}, fixed=fixed_late)
             bad = oracle(record, objs)
             if bad:
                 chk.violation("counterexample", f"record state after genes were added to a record with regions: {bad}",
@@ -1223,7 +1256,8 @@ def run_links(chk, rng, total, cases, impl_outs):
 
 def known_findings(chk):
     """ recorded, unrepaired defects: printed only while the stored witness still reproduces (the witnesses of the
-        repaired F12 origin_spanning_area and C06-K3 add_region_scan_stops_early are in the regression corpus) """
+        repaired F12 origin_spanning_area, C06-K3 add_region_scan_stops_early and C06-K4 late_gene_origin_region_unlinked
+        are in the regression corpora RING_CORPUS, ADD_REGION_CORPUS, LATE_GENE_CORPUS) """
     from antismash.common.secmet.test.helpers import DummyRecord, DummySubRegion
     for finding in common.load_known_findings("C06"):
         if finding["status"] != "known":
@@ -1237,16 +1271,6 @@ def known_findings(chk):
                     record.add_subregion(DummySubRegion(s, e, record_length=n))
                 record.create_regions()
                 if any(loc_parts(r.location) == [(0, n)] for r in record.get_regions()):
-                    chk.known(finding["what_fails"])
-            elif finding["class"] == "late_gene_origin_region_unlinked":
-                from antismash.common.secmet.test.helpers import DummyCDS
-                for s, e in w["subregions"]:
-                    record.add_subregion(DummySubRegion(s, e, record_length=n))
-                record.create_regions()
-                cds = DummyCDS(w["late_gene"][0], w["late_gene"][1], locus_tag="late")
-                record.add_cds_feature(cds)
-                first = record.get_regions()[0]
-                if cds.region is None and cds.is_contained_by(first) and len(first.location.parts) == 2:
                     chk.known(finding["what_fails"])
         except Exception:  # pylint: disable=broad-except
             pass          # the witness no longer behaves as recorded: nothing is printed, nothing is suppressed by this
